@@ -10,8 +10,8 @@ git -C /repo archive HEAD | tar -x -C "$S" --one-top-level=repo
 mkdir -p "$S/build" "$S/ev" "$S/replays"
 for id in "$@"; do
   echo "=== $id against $(basename "$PATCH")"
-  VERIF_REPO="$S/repo" VERIF_BUILD="$S/build" VERIF_EVIDENCE="$S/ev" VERIF_REPLAYS="$S/replays" /verif/check "$id" --quick > "$S/out.txt" 2>&1
-  grep -E "^VIOLATION|^KNOWN|^---- |^     [A-Za-z]" "$S/out.txt" | cut -c1-300 | head -${LINES_MAX:-12}
-  grep -E "^C[0-9]+ quick|HARNESS" "$S/out.txt" | cut -c1-300 | head -3
+  VERIF_REPO="$S/repo" VERIF_BUILD="$S/build" VERIF_EVIDENCE="$S/ev" VERIF_REPLAYS="$S/replays" /verif/check "$id" --quick > "$S/out.txt" 2>&1 || true
+  grep -E "^VIOLATION|^KNOWN|^---- |^     [A-Za-z]" "$S/out.txt" | cut -c1-300 | head -${LINES_MAX:-12} || true
+  grep -E "^C[0-9]+ quick|HARNESS" "$S/out.txt" | cut -c1-300 | head -3 || true
   echo "exit=$?"
 done
